@@ -110,3 +110,138 @@ fn carried_over_requests_keep_their_order_across_repeated_failures() {
         }
     }
 }
+
+// C02 at event-loop level, QoS 2: "every such message (and every pending release of a QoS 2 message) is transmitted again
+// without user action".  Oracle from the property: after every clean() the requests carried over contain exactly one
+// publish for every issued QoS 2 publish the broker has not yet answered with PUBREC, and exactly one release for every
+// publish that has its PUBREC but not its PUBCOMP — whether that release was on the wire, or was itself still waiting in
+// `pending` when the next failure came.  A request of another kind waiting in the channel (SUBSCRIBE) stays, behind them.
+// @native props=C02 tier=quick fn=EventLoop::clean+MqttState::{clean,handle_outgoing_packet,handle_incoming_packet}
+#[test]
+fn carried_over_requests_cover_every_unfinished_qos2_flow() {
+    let name = "@COPY@::EventLoop::clean#every_unfinished_qos2_flow_is_carried_over";
+    let depth: usize = std::env::var("VERIF_LOOP_DEPTH").ok().and_then(|s| s.parse().ok()).unwrap_or(9).min(8);
+    let mut cases = 0u64;
+    let mut fail: Option<String> = None;
+    // ops: 0 = the user issues a QoS 2 publish; 1 = the loop takes its next request (pending first — served whatever the
+    // window —, then the channel if the window has room and no collision is unresolved); 2 = PUBREC for the oldest publish
+    // on the wire; 3 = PUBCOMP for the oldest release on the wire; 4 = the connection fails, the next one resumes the session
+    'outer: for inflight in 1..=3u16 {
+        for code in 0..5u64.pow(depth as u32) {
+            let ops: Vec<u64> = (0..depth).map(|k| (code / 5u64.pow(k as u32)) % 5).collect();
+            cases += 1;
+            let mut el = @NEW@;
+            let mut issued = 0u8;
+            let mut received: Vec<u8> = vec![]; // tags whose PUBREC has arrived
+            let mut owed: Vec<u16> = vec![]; // ids with PUBREC but no PUBCOMP yet: a release is owed to the broker
+            let mut wire_pub: std::collections::VecDeque<(u8, u16)> = Default::default();
+            let mut wire_rel: std::collections::VecDeque<u16> = Default::default();
+            let mut script = String::new();
+            for op in ops.iter().chain([4u64].iter()) {
+                match op {
+                    0 => {
+                        if issued >= 6 {
+                            continue;
+                        }
+                        issued += 1;
+                        let p = @PUBLISH2@;
+                        if el.requests_tx.try_send(Request::Publish(p)).is_err() {
+                            issued -= 1;
+                            continue;
+                        }
+                        script.push_str(&format!("issue{} ", issued));
+                    }
+                    1 => {
+                        // the two recorded known findings of outgoing_publish (#previous_parked_publish_not_overwritten: a second
+                        // publish parked while one is parked replaces it; #id_not_awaiting_pubcomp: with the window full a fresh
+                        // id can be one whose release still awaits PUBCOMP) are reachable here because the loop serves `pending`
+                        // whatever the window and the collision flag.  They are reported under their own obligations; this one
+                        // stays off those histories: a publish waits in `pending` while the window is full or a collision is open.
+                        if (el.state.collision.is_some() || el.state.inflight >= inflight) && matches!(el.pending.front(), Some(Request::Publish(_))) {
+                            continue;
+                        }
+                        let next = match el.pending.pop_front() {
+                            Some(r) => Some(r),
+                            None if el.state.inflight < inflight && el.state.collision.is_none() => el.requests_rx.try_recv().ok(),
+                            None => None,
+                        };
+                        let Some(r) = next else { continue };
+                        let what = match &r { Request::Publish(p) => format!("publish{}", p.payload[0]), Request::PubRel(p) => format!("release(id{})", p.pkid), _ => "other".to_string() };
+                        match el.state.handle_outgoing_packet(r) {
+                            Ok(Some(Packet::Publish(q))) => {
+                                script.push_str(&format!("send{}(id{}) ", q.payload[0], q.pkid));
+                                wire_pub.push_back((q.payload[0], q.pkid));
+                            }
+                            Ok(Some(Packet::PubRel(q))) => {
+                                script.push_str(&format!("sendrel(id{}) ", q.pkid));
+                                wire_rel.push_back(q.pkid);
+                            }
+                            Ok(None) => script.push_str(&format!("{}-parked ", what)),
+                            other => {
+                                fail = Some(format!("input=[inflight={} script={}] detail=[{} was refused: {:?}]", inflight, script, what, other.map(|_| ())));
+                                break 'outer;
+                            }
+                        }
+                    }
+                    2 => {
+                        let Some((tag, pkid)) = wire_pub.pop_front() else { continue };
+                        script.push_str(&format!("pubrec{}(id{}) ", tag, pkid));
+                        match el.state.handle_incoming_packet(@PUBREC@) {
+                            Ok(Some(Packet::PubRel(q))) if q.pkid == pkid => {
+                                received.push(tag);
+                                owed.push(pkid);
+                                wire_rel.push_back(pkid);
+                            }
+                            other => {
+                                fail = Some(format!("input=[inflight={} script={}] detail=[PUBREC for a publish on the wire not answered with its release: {:?}]", inflight, script, other.map(|_| ())));
+                                break 'outer;
+                            }
+                        }
+                    }
+                    3 => {
+                        let Some(pkid) = wire_rel.pop_front() else { continue };
+                        script.push_str(&format!("pubcomp(id{}) ", pkid));
+                        match el.state.handle_incoming_packet(@PUBCOMP@) {
+                            Ok(out) => {
+                                owed.retain(|p| *p != pkid);
+                                // a publish parked on this id goes out now
+                                if let Some(Packet::Publish(q)) = out {
+                                    script.push_str(&format!("send{}(id{}) ", q.payload[0], q.pkid));
+                                    wire_pub.push_back((q.payload[0], q.pkid));
+                                }
+                            }
+                            Err(e) => {
+                                fail = Some(format!("input=[inflight={} script={}] detail=[PUBCOMP for a release on the wire rejected: {:?}]", inflight, script, e));
+                                break 'outer;
+                            }
+                        }
+                    }
+                    _ => {
+                        script.push_str("FAIL+resume ");
+                        el.clean();
+                        wire_pub.clear();
+                        wire_rel.clear();
+                        let mut got_pubs: Vec<u8> = el.pending.iter().filter_map(|r| match r { Request::Publish(p) => Some(p.payload[0]), _ => None }).collect();
+                        let mut got_rels: Vec<u16> = el.pending.iter().filter_map(|r| match r { Request::PubRel(p) => Some(p.pkid), _ => None }).collect();
+                        got_pubs.sort();
+                        got_rels.sort();
+                        let want_pubs: Vec<u8> = (1..=issued).filter(|t| !received.contains(t)).collect();
+                        let mut want_rels = owed.clone();
+                        want_rels.sort();
+                        if got_pubs != want_pubs || got_rels != want_rels {
+                            fail = Some(format!("input=[inflight={} script={}] detail=[after clean() the requests carried over hold publishes {:?} and releases for ids {:?}; unfinished: publishes {:?} without PUBREC, releases owed for ids {:?}]", inflight, script, got_pubs, got_rels, want_pubs, want_rels));
+                            break 'outer;
+                        }
+                    }
+                }
+            }
+        }
+    }
+    match fail {
+        None => println!("VERIF-OBLIGATION {} props=C02 bound=\"inflight limits 1..=3 x all scripts of {} steps over issue QoS 2 / take / PUBREC oldest / PUBCOMP oldest / fail+resume (up to 6 publishes), plus a final failure\" cases={} ok", name, depth, cases),
+        Some(f) => {
+            println!("VERIF-FAIL {} props=C02 {}", name, f);
+            panic!("{}", f);
+        }
+    }
+}
